@@ -692,8 +692,52 @@ def check(ctx, groups, tag):
     return combos, len(printed), len(sample), len(viol)
 
 
+def check_escapes(ctx, binary):
+    """string-literal escapes that build bytes (scanner.rs read_escaped_bytes): \\xHH (the from_ascii mapping), \\uHHHH and
+    \\UHHHHHHHH (raw UTF-8 bytes, rejected at compile time when ill-formed).  Oracle: Python (no Coq model)."""
+    cases = []
+    for b in range(256):
+        exp = [b] if b < 128 else [195, b & 0xBF]
+        cases.append(("\\x%02x" % b, exp))
+    for hx4 in ["c3a9", "c2a0", "dfbf", "0041", "4142", "c328", "a9c3", "c0af", "e282", "ffff", "7f7f", "c3", "c3a", "zz00"]:
+        cases.append(("\\u" + hx4, raw_bytes(hx4, 2)))
+    for hx8 in ["f09f9880", "e282ac41", "41e282ac", "00000041", "c3a9c3a9", "f0908080", "f08f8080", "f4908080", "eda08041", "e282ac", "f09f98", "e2828041",
+                "ffffffff", "c3a941"]:
+        cases.append(("\\U" + hx8, raw_bytes(hx8, 4)))
+    recs = yvlib.run_harness(binary, ["run - " + hx('print("%s".to_bytes());' % e) for e, _ in cases], case_timeout_ms=10000)
+    n_bad = 0
+    for (esc, exp), r in zip(cases, recs):
+        if exp is None:
+            ok = r.result == ("err", "CompileError") and any("Invalid" in m for m in r.messages)
+            shown = "CompileError: Invalid Unicode/hexadecimal sequence."
+        else:
+            shown = "[%s]" % ", ".join(str(x) for x in exp)
+            ok = r.result[0] == "ok" and r.output == [shown]
+        if not ok:
+            n_bad += 1
+            if n_bad <= 2:
+                ctx.violation("string literal escape decodes differently from the byte model", input='print("%s".to_bytes());' % esc,
+                              expected=shown, actual=r.output + [str(r.result)] + r.messages[:1], escape=esc)
+    return len(cases)
+
+
+def raw_bytes(hexs, n):
+    if len(hexs) != 2 * n:
+        return None
+    try:
+        b = bytes.fromhex(hexs)
+        b.decode("utf-8")
+        return list(b)
+    except ValueError:
+        return None
+
+
 def run(ctx):
     quick = ctx.quick()
+    if ctx.replay_only and "escape" in ctx.replay_only:
+        n = check_escapes(ctx, ctx.harness("debug"))
+        ctx.cov.update({"evaluations": n, "distinct_nontrivial": 0, "rule": "replay of the escape table", "samples": [ctx.replay_only["escape"]]})
+        return
     if ctx.replay_only:
         p = Probe.from_json(ctx.replay_only["probe"])
         check(ctx, [p.group()], "replay")
@@ -702,6 +746,7 @@ def run(ctx):
     groups = gen_groups(quick)
     probes = [p for g in groups for p in g.probes()]
     combos, nprinted, nsample, n_viol = check(ctx, groups, "sweep")
+    n_esc = check_escapes(ctx, ctx.harness("debug"))
     per_fn = {}
     for p in probes:
         per_fn[p.fn] = per_fn.get(p.fn, 0) + 1
@@ -710,7 +755,8 @@ def run(ctx):
         shapes[c[0]] = shapes.get(c[0], 0) + 1
     pick = [probes[i] for i in sorted(ctx.rng.sample(range(len(probes)), 6))]
     ctx.cov.update({
-        "evaluations": len(probes),
+        "evaluations": len(probes) + n_esc,
+        "escape_literals_checked_against_python_oracle": n_esc,
         "distinct_nontrivial": len(combos),
         "rule": "exhaustive sweep (no sampling): all strings of <= %d characters over {a, e-acute, euro sign, U+1F600} (1-4 bytes); all vecs/tuples of <= %d "
                 "elements over {1, 'e-acute', nil}; every byte offset 0..len+1 and -len-1..-1 as index, every pair of them (plus +-2^63, +-inf) as range "
